@@ -2,7 +2,7 @@
 # seedprocess.sh <ID> : validates the sub-agent's seeded changes in /tmp/wt_<ID>/out/<n>, stores the confirmed
 # ones under /verif/seeded/<ID>-<n>/ and runs the property's quick check against each.
 ID="$1"; TIER="${2:-quick}"
-for n in 1 2 3; do
+for n in ${SEEDS:-1 2 3 4}; do
   D=/tmp/wt_$ID/out/$n
   [ -f "$D/patch.diff" ] || continue
   echo "=== $ID-$n: $(python3 -c "import json;print(json.load(open('$D/meta.json')).get('summary',''))" 2>/dev/null)"
